@@ -271,6 +271,21 @@ def r9_subslice_copy(text):
         text = text[:m.start()] + new + text[m.end():]
 
 
+def r10_windows2(text):
+    """`for W in X.windows(2) {` => `for w__N in 0..(if X.len() >= 2 { X.len() - 1 } else { 0 }) { let W = [X[w__N], X[w__N + 1]];`
+    (Verus has no specification of slice::Windows; for Copy elements W[0], W[1] read the same values)."""
+    n = 0
+    while True:
+        m = re.search(r'(?m)^(\s*)for (\w+) in ([A-Za-z_][A-Za-z0-9_.]*)\.windows\(2\) \{[ \t]*$', text)
+        if not m:
+            return text, n
+        n += 1
+        ind, w, x = m.groups()
+        i = f'w__{n}'
+        new = f'{ind}for {i} in 0..(if {x}.len() >= 2 {{ {x}.len() - 1 }} else {{ 0 }}) {{ let {w} = [{x}[{i}], {x}[{i} + 1]];'
+        text = text[:m.start()] + new + text[m.end():]
+
+
 def r7_param_patterns(text):
     """`fn f(.., StructPat { a: x, b: y }: &T, ..) {` => `fn f(.., p__1: &T, ..) { let StructPat { a: x, b: y } = p__1;`
     (Verus: function inputs must be identifiers)."""
@@ -305,7 +320,7 @@ def r7_param_patterns(text):
     return _apply_edits(text, edits), n
 
 
-RULES = [('R0', r0_visibility_and_stats), ('R1', r1_ref_patterns), ('R7', r7_param_patterns), ('R8', r8_assert_eq), ('R9', r9_subslice_copy),
+RULES = [('R0', r0_visibility_and_stats), ('R1', r1_ref_patterns), ('R7', r7_param_patterns), ('R8', r8_assert_eq), ('R9', r9_subslice_copy), ('R10', r10_windows2),
          ('R2', r2_array_literal_loops), ('R3', r3_zip_enumerate)]
 
 
